@@ -1,12 +1,313 @@
-"""C39 -- Telnet option negotiation converges without loops: bounded stand-in (contracts/parts/C39_bounded.py); deductive contracts may be added later."""
-from contracts._parts import bounded, EXPLORATION_NOTE
+"""C39 -- Telnet option negotiation converges without loops.
 
-CONTRACTS = []
+Deductive (complete case analysis of the real handlers, for an arbitrary option byte): telnet_WILL / telnet_WONT /
+telnet_DO / telnet_DONT in each of the four states of the perspective they concern (enabled or not, negotiation in
+progress or not), and the four requests will / wont / do / dont in each of the eight states they look at, against the
+RFC 1143 rules the property rests on:
+
+  * a received command that asks for what is already in force is not answered (so two endpoints cannot keep each other
+    busy), any other is answered with at most one command;
+  * a pending request's Deferred is fired exactly once, by exactly the answer to it, and the slot is cleared *before*
+    it fires (a request made from the callback finds a consistent table); handlers outside a negotiation fire nothing;
+  * a request is refused (AlreadyNegotiating / AlreadyEnabled / AlreadyDisabled, nothing sent, nothing changed) or
+    sends exactly one command, marks the negotiation and returns a new unfired Deferred stored in the slot;
+  * the state after each handler is the one both peers can agree on (WILL accepted -> enabled, WONT -> disabled, ...).
+Bounded (contracts/parts/C39_bounded.py): two real endpoints, every interleaving, convergence and agreement.
+"""
+from pyvc.api import *
+from pyvc import core
+from pyvc.core import SRef
+from contracts._parts import bounded
+from twisted.conch import telnet
+from twisted.internet import defer
+
+M = "twisted.conch.telnet"
+IAC, WILL, WONT, DO, DONT = telnet.IAC, telnet.WILL, telnet.WONT, telnet.DO, telnet.DONT
+PENDING = 7  # reference number of the Deferred of the request in progress
+
+
+def slot_snapshot():
+    st = ctx().ghost["state"]
+    return {"us": (st.us.state, st.us.negotiating, st.us.onResult), "him": (st.him.state, st.him.negotiating, st.him.onResult)}
+
+
+def deferred_event(name):
+    def handler(I, ref, *args, **kw):
+        ctx().emit("Deferred." + name, ref, args, kw, slot_snapshot())
+    return handler
+
+
+def app_hook(name, answers):
+    def handler(I, *args):
+        c = ctx()
+        c.emit(name, None, args[-1:], None, slot_snapshot())
+        if answers:
+            if c.ghost["own_request"]:
+                return True  # the property's premise: a policy accepts the options it itself requested
+            return c.decide(z3.Bool(c.fresh_name(name + "_accepts")))
+        return None
+    return handler
+
+
+import z3  # noqa: E402
+
+CALLS = {"Deferred.callback": deferred_event("callback"), "Deferred.errback": deferred_event("errback")}
+SUMMARIES = {"Telnet.getOptionState": lambda I, *a: ctx().ghost["state"],
+             "Telnet._write": lambda I, *a: ctx().emit("write", None, a[-1:]),
+             "Telnet.enableRemote": app_hook("enableRemote", True), "Telnet.enableLocal": app_hook("enableLocal", True),
+             "Telnet.disableRemote": app_hook("disableRemote", False), "Telnet.disableLocal": app_hook("disableLocal", False)}
+
+
+def ev(S, name):
+    return [e for e in S.trace if e.name == name]
+
+
+def sent(S):
+    return [e.args[0] for e in ev(S, "write")]
+
+
+class _Negotiation(Contract):
+    prop = "C39"
+    module = M
+    differential = False
+    calls = CALLS
+    summaries = SUMMARIES
+    inputs = dict(opt=Bytes(maxlen=1, minlen=1, small_len=1), enabled=ForkBool(), negotiating=ForkBool(),
+                  other_enabled=ForkBool(), other_negotiating=ForkBool())
+    trusted = ["getOptionState returns the option's state record (dict.setdefault); _write hands the bytes to the transport",
+               "enableLocal / enableRemote / disableLocal / disableRemote are application hooks: recorded call-outs, the "
+               "enable hooks may answer either way",
+               "a negotiation in progress has its Deferred in onResult (set by the request functions proved here)",
+               "the pending Deferred is an abstract reference: callback / errback are recorded call-outs with a snapshot "
+               "of the option's state at that moment (what a Deferred then does is C01 / C03)"]
+    SIDE = "him"   # the perspective the received command is about
+    OTHER = "us"
+
+    def setup(self, i):
+        t = self.make(telnet.Telnet, **vars(telnet.Telnet()))
+        st = telnet.Telnet._OptionState()
+        for side, en, neg in ((self.SIDE, i.enabled, i.negotiating), (self.OTHER, i.other_enabled, i.other_negotiating)):
+            p = getattr(st, side)
+            p.state = "yes" if en else "no"
+            p.negotiating = bool(neg)
+            p.onResult = SRef(z3.IntVal(PENDING if side == self.SIDE else PENDING + 1), "Deferred") if neg else None
+        fn = getattr(telnet.Telnet, self.function.split(".")[1])
+        return dict(fn=fn, args=[t, i.opt], objs=dict(t=t), ghost=dict(state=st, own_request=bool(i.negotiating)))
+
+    def bounded_inputs(self, tier):
+        return iter(())
+
+
+def fired(S, side_pending=PENDING):
+    """(events on the pending Deferred of the side concerned, events on any other Deferred)"""
+    evs = [e for e in S.trace if e.name.startswith("Deferred.")]
+    mine = [e for e in evs if isinstance(e.target, SRef) and z3.is_int_value(e.target.term) and e.target.term.as_long() == side_pending]
+    return mine, [e for e in evs if e not in mine]
+
+
+class _Received(_Negotiation):
+    """one received WILL / WONT / DO / DONT"""
+    COMMAND = None      # what was received
+    ASKS_ENABLED = None  # the state the command asks for / reports
+    ACCEPT = None       # the command sent to accept (None: this command is itself an answer or a refusal)
+    REFUSE = None
+    HOOK_ON = None
+    HOOK_OFF = None
+    raises = ()
+
+    def requires(self, i):
+        # "we asked the peer to disable and it answers by announcing the option": the peer breaks RFC 854; the code
+        # asserts that this cannot happen and the property speaks of two Telnet endpoints, so the case is excluded
+        return bnot(band(i.enabled, i.negotiating)) if self.ASKS_ENABLED else True
+
+    def _table(S):
+        i, st = S.i, S.ghost["state"]
+        me = getattr(st, S.SIDE)
+        other = getattr(st, S.OTHER)
+        out, mine, others = sent(S), *fired(S)
+        if others or (other.state, other.negotiating) != ("yes" if i.other_enabled else "no", bool(i.other_negotiating)):
+            return False  # the other perspective of the option is none of this command's business
+        opt = i.opt
+        asks = S.ASKS
+        if S.exc is not None:
+            return None
+        if not i.negotiating:
+            if mine:
+                return False
+            if bool(i.enabled) == asks:
+                # asks for what is already in force: not answered, nothing changes (this is what stops loops)
+                return band(len(out) == 0, me.state == ("yes" if i.enabled else "no"), me.negotiating is False,
+                            not ev(S, S.HOOK_ON) and not ev(S, S.HOOK_OFF))
+            if asks:
+                # the peer proposes to enable: the application decides; exactly one answer
+                hook = ev(S, S.HOOK_ON)
+                if len(hook) != 1 or len(out) != 1:
+                    return False
+                accepted = me.state == "yes"
+                return band(veq(out[0], IAC + (S.ACCEPT if accepted else S.REFUSE) + opt), me.negotiating is False,
+                            me.state in ("yes", "no"))
+            # the peer disables: we follow, tell the application, acknowledge once
+            return band(me.state == "no", len(ev(S, S.HOOK_OFF)) == 1, len(out) == 1, veq(out[0], IAC + S.REFUSE + opt),
+                        me.negotiating is False)
+        # an answer to our own request: exactly the pending Deferred fires, once, after the slot was cleared; nothing is sent
+        if len(mine) != 1 or out:
+            return False
+        at = mine[0].snap[S.SIDE]
+        cleared = band(at[1] is False, at[2] is None, at[0] == ("yes" if asks else "no") if mine[0].name == "Deferred.callback" else True)
+        if asks:
+            # (enabled, negotiating) + positive answer cannot happen (AssertionError above); here: not enabled
+            return band(mine[0].name == "Deferred.callback", mine[0].args == (True,), me.state == "yes", me.negotiating is False,
+                        me.onResult is None, cleared, len(ev(S, S.HOOK_ON)) == 1)
+        if i.enabled:
+            # we asked to disable, the peer agrees
+            return band(mine[0].name == "Deferred.callback", mine[0].args == (True,), me.state == "no", me.negotiating is False,
+                        me.onResult is None, cleared, len(ev(S, S.HOOK_OFF)) == 1)
+        # we asked to enable, the peer refuses
+        return band(mine[0].name == "Deferred.errback", isinstance(mine[0].args[0], telnet.OptionRefused), me.state == "no",
+                    me.negotiating is False, me.onResult is None, cleared, not ev(S, S.HOOK_ON))
+
+    ensures = dict(rfc1143_table=_table)
+
+    def state_extras(self, S):
+        S.ASKS, S.SIDE, S.OTHER = self.ASKS_ENABLED, self.SIDE, self.OTHER
+        S.ACCEPT, S.REFUSE, S.HOOK_ON, S.HOOK_OFF = self.ACCEPT, self.REFUSE, self.HOOK_ON, self.HOOK_OFF
+
+
+def _bind(cls):
+    """clauses are plain functions of S; give them the per-class constants through a wrapper"""
+    def wrap(f):
+        def g(S):
+            cls.state_extras(cls, S)
+            return f(S)
+        return g
+    cls.ensures = {k: wrap(v) for k, v in _Received.ensures.items()}
+    return cls
+
+
+@_bind
+class ReceivedWill(_Received):
+    function = "Telnet.telnet_WILL"
+    SIDE, OTHER, ASKS_ENABLED, ACCEPT, REFUSE, HOOK_ON, HOOK_OFF = "him", "us", True, DO, DONT, "enableRemote", "disableRemote"
+    canaries = [("        d = state.him.onResult\n        state.him.onResult = None\n        d.callback(True)\n        assert self.enableRemote(",
+                 "        d = state.him.onResult\n        d.callback(True)\n        state.him.onResult = None\n        assert self.enableRemote(", "rfc1143_table",
+                 "Telnet.will_no_true"),
+                ("            self._dont(option)", "            pass", "rfc1143_table", "Telnet.will_no_false"),
+                ("        pass", "        self._do(option)", "rfc1143_table", "Telnet.will_yes_false")]
+
+
+@_bind
+class ReceivedWont(_Received):
+    function = "Telnet.telnet_WONT"
+    SIDE, OTHER, ASKS_ENABLED, ACCEPT, REFUSE, HOOK_ON, HOOK_OFF = "him", "us", False, None, DONT, "enableRemote", "disableRemote"
+    # seeded change C39-2: the Deferred fires before the slot is cleared
+    canaries = [("        state.him.onResult = None\n        d.callback(True)\n        self.disableRemote(option)",
+                 "        d.callback(True)\n        state.him.onResult = None\n        self.disableRemote(option)", "rfc1143_table", "Telnet.wont_yes_true"),
+                ("        d.errback(OptionRefused(option))", "        d.callback(False)", "rfc1143_table", "Telnet.wont_no_true")]
+
+
+@_bind
+class ReceivedDo(_Received):
+    function = "Telnet.telnet_DO"
+    SIDE, OTHER, ASKS_ENABLED, ACCEPT, REFUSE, HOOK_ON, HOOK_OFF = "us", "him", True, WILL, WONT, "enableLocal", "disableLocal"
+
+
+@_bind
+class ReceivedDont(_Received):
+    function = "Telnet.telnet_DONT"
+    SIDE, OTHER, ASKS_ENABLED, ACCEPT, REFUSE, HOOK_ON, HOOK_OFF = "us", "him", False, None, WONT, "enableLocal", "disableLocal"
+
+
+class _Request(_Negotiation):
+    """will / wont / do / dont issued by the application"""
+    COMMAND = None
+    WANTS_ENABLED = None
+    raises = ()
+
+    def _request(S):
+        i, st = S.i, S.ghost["state"]
+        me, other = getattr(st, S.SIDE), getattr(st, S.OTHER)
+        out, (mine, others) = sent(S), fired(S)
+        r = S.result
+        is_d = isinstance(r, defer.Deferred) or (isinstance(r, core.SObj) and r._cls is defer.Deferred)
+        if not is_d or mine or others:
+            return False
+        called = r._fields.get("called", False) if isinstance(r, core.SObj) else r.called
+        unchanged = band((me.state, me.negotiating) == ("yes" if i.enabled else "no", bool(i.negotiating)),
+                         (other.state, other.negotiating) == ("yes" if i.other_enabled else "no", bool(i.other_negotiating)))
+        if i.negotiating or i.other_negotiating or bool(i.enabled) == S.WANTS:
+            # refused at once: nothing sent, nothing changed, the Deferred has failed with the documented error
+            res = r._fields.get("result") if isinstance(r, core.SObj) else r.result
+            want = telnet.AlreadyNegotiating if (i.negotiating or i.other_negotiating) else (telnet.AlreadyEnabled if S.WANTS else telnet.AlreadyDisabled)
+            return band(len(out) == 0, called is True, isinstance(getattr(res, "value", None), want), unchanged,
+                        me.onResult is (None if not i.negotiating else me.onResult))
+        return band(len(out) == 1, veq(out[0], IAC + S.COMMAND + i.opt), called is False, me.negotiating is True,
+                    me.onResult is r, me.state == ("yes" if i.enabled else "no"),
+                    (other.state, other.negotiating) == ("yes" if i.other_enabled else "no", bool(i.other_negotiating)))
+
+    ensures = dict(refused_or_one_command_and_a_new_pending_deferred=_request)
+
+
+def _bind_request(cls):
+    def wrap(f):
+        def g(S):
+            S.SIDE, S.OTHER, S.COMMAND, S.WANTS = cls.SIDE, cls.OTHER, cls.COMMAND, cls.WANTS_ENABLED
+            return f(S)
+        return g
+    cls.ensures = {k: wrap(v) for k, v in _Request.ensures.items()}
+    return cls
+
+
+@_bind_request
+class RequestWill(_Request):
+    function = "Telnet.will"
+    SIDE, OTHER, COMMAND, WANTS_ENABLED = "us", "him", WILL, True
+    calls = dict(Failure="native")
+    canaries = [("if s.us.negotiating or s.him.negotiating:\n            return defer.fail(AlreadyNegotiating(option))\n        elif s.us.state == \"yes\":",
+                 "if s.us.negotiating:\n            return defer.fail(AlreadyNegotiating(option))\n        elif s.us.state == \"yes\":",
+                 "refused_or_one_command_and_a_new_pending_deferred")]
+
+
+@_bind_request
+class RequestWont(_Request):
+    function = "Telnet.wont"
+    SIDE, OTHER, COMMAND, WANTS_ENABLED = "us", "him", WONT, False
+    calls = dict(Failure="native")
+
+
+@_bind_request
+class RequestDo(_Request):
+    function = "Telnet.do"
+    SIDE, OTHER, COMMAND, WANTS_ENABLED = "him", "us", DO, True
+    calls = dict(Failure="native")
+
+
+@_bind_request
+class RequestDont(_Request):
+    function = "Telnet.dont"
+    SIDE, OTHER, COMMAND, WANTS_ENABLED = "him", "us", DONT, False
+    calls = dict(Failure="native")
+
+
+CONTRACTS = [ReceivedWill, ReceivedWont, ReceivedDo, ReceivedDont, RequestWill, RequestWont, RequestDo, RequestDont]
 BOUNDED = bounded("C39")
-NOTES = dict(explanation='two real Telnet endpoints joined by explorer-controlled FIFO pipes: breadth-first exploration of every interleaving of requests and deliveries (all policy pairs for 1-2 options, up to 4-6 requests) with replay on fresh endpoints; oracle: every Deferred fires exactly once, both sides agree at quiescence, no delivery-only cycle', not_covered=["deductive contracts on the anchored functions (not built)"])
+_SCOPE = ('two real Telnet endpoints joined by explorer-controlled FIFO pipes: breadth-first exploration of every interleaving of requests and deliveries (all policy pairs for 1-2 options, up to 4-6 requests) with replay on fresh endpoints, requests issued from inside Deferred callbacks, long random runs delivered in byte pieces; oracle: every Deferred fires exactly once, both sides agree at quiescence, no delivery-only cycle')
+NOTES = dict(explanation="every negotiation handler (the sixteen will_* / wont_* / do_* / dont_* methods, executed inline through the "
+                         "real willMap / wontMap / doMap / dontMap dispatch of telnet_WILL / WONT / DO / DONT, each re-read from the "
+                         "working tree) and request function proved against the RFC 1143 rules by complete case analysis; "
+                         "convergence of two endpoints bounded: " + _SCOPE,
+             not_covered=["the global argument (no message loop, agreement at quiescence) as a machine-checked lemma over the handler "
+                          "contracts: it is explored, not proved (bounded tier)",
+                          "Telnet.dataReceived's command parser (C38), subnegotiation"])
 MANIFEST = dict(
-    category="exploration",
-    text="Bounded stand-in only, on the real code: " + 'two real Telnet endpoints joined by explorer-controlled FIFO pipes: breadth-first exploration of every interleaving of requests and deliveries (all policy pairs for 1-2 options, up to 4-6 requests) with replay on fresh endpoints; oracle: every Deferred fires exactly once, both sides agree at quiescence, no delivery-only cycle' + ".",
-    note=EXPLORATION_NOTE,
-    technique="bounded exhaustive evaluation of an executable contract on the real code (stand-in; not proved)",
+    category="proof",
+    text="The real negotiation code is proved by complete case analysis, for an arbitrary option byte: telnet_WILL / WONT / DO / "
+         "DONT in each state of the perspective concerned never answer a command that asks for what is already in force and "
+         "answer any other with exactly one command (DO/DONT, WILL/WONT as the application hook decides); an answer to our own "
+         "request fires exactly the pending Deferred, exactly once (True, or OptionRefused), after the slot was cleared and the "
+         "state updated, sends nothing, and touches neither the option's other perspective nor any other Deferred; will / wont / "
+         "do / dont either fail at once (AlreadyNegotiating when either perspective negotiates, AlreadyEnabled / "
+         "AlreadyDisabled) with nothing sent or changed, or send exactly one command, mark the negotiation and return a new "
+         "unfired Deferred stored in the slot.  That two such endpoints converge and agree is explored, not proved: " + _SCOPE + ".",
+    note="Trusted: pyvc, SMT solvers, application hooks and the pending Deferred as recorded call-outs, getOptionState as dict.setdefault.  Everything else: bounded, never counted as proved.",
+    technique="contract-based deductive verification (complete symbolic case analysis of the handlers, call-out traces with state snapshots) + bounded exhaustive interleavings of two real endpoints",
 )
